@@ -763,6 +763,9 @@ class StmtMixin:
             st.hwrite("$llen", gr, seq["len"](st))
             kl = Val(V.R(gr), th=TH("List", [TH("Any")]))
             st.spec_env = dict(st.spec_env, **{lp.seq_name: kl})
+        elif lp.seq_name and hint_kind(it.th.strip_optional() if it.th is not None else None) == "list":
+            # the iterated list itself (e.g. the result of sorted(...)) under a specification-only name
+            st.spec_env = dict(st.spec_env, **{lp.seq_name: it})
         i0 = vint(0)
         self.check_invariant(st, lp, "entry", node, {idx_name: i0})
         s = st.fork()
@@ -855,4 +858,4 @@ class StmtMixin:
         st.assume(z3.ForAll([a], z3.Implies(z3.And(0 <= a, a < n), z3.And(z3.Select(dom, z3.Select(ks, a)), pos(z3.Select(ks, a)) == a))))
         st.assume(z3.ForAll([x], z3.Implies(z3.Select(dom, x), z3.And(0 <= pos(x), pos(x) < n, z3.Select(ks, pos(x)) == x))))
         kth = th.args[0] if th.args and th.args[0].name != "Any" else None
-        return {"len": lambda s: n, "get": lambda s, i: self.elem_typed(s, z3.Select(ks, i), kth), "keys": ks}
+        return {"len": lambda s: n, "get": lambda s, i: self.elem_typed(s, z3.Select(ks, i), kth), "keys": ks, "dom": dom, "n": n}
